@@ -30,7 +30,7 @@ EXTENDS Integers, Sequences, FiniteSets, TLC, Json
 CONSTANTS
   Kernels, Vias, DTypes, YDts, Layouts, OutKinds, XRanks, YRanks, DWs, UBits,  \* configuration sets of this run
   Supported,      \* [kernel |-> set of dtype names]: EXTRACTED from the fused types of libdist.pyx
-  DataMode,       \* "all": every matrix in scope; "gen": generated larger matrices; "zero": one matrix per shape
+  DataMode,       \* "all": every matrix in scope; "gen" / "genpos": generated larger matrices; "zero": one matrix per shape
   MinR, MaxR, MinF, MaxF, V,        \* scope of "all": R x F matrices over -V..V (0..V for unsigned types)
   GenRows, GenCols, NSeeds,         \* scope of "gen"
   Emit            \* "no" | "vals" | "cfg" | "lay"
@@ -72,8 +72,10 @@ F == Len(y)
 
 (* ---- definition level --------------------------------------------------------- *)
 Abs(a) == IF a < 0 THEN -a ELSE a
-RECURSIVE SumSeq(_, _)
-SumSeq(s, k) == IF k = 0 THEN 0 ELSE SumSeq(s, k - 1) + s[k]
+RECURSIVE SumRange(_, _, _)        \* divide and conquer: recursion depth log2(n), rows may be tens of thousands wide
+SumRange(s, lo, hi) == IF lo > hi THEN 0 ELSE IF lo = hi THEN s[lo]
+                       ELSE LET mid == (lo + hi) \div 2 IN SumRange(s, lo, mid) + SumRange(s, mid + 1, hi)
+SumSeq(s, k) == SumRange(s, 1, k)
 
 L1(x, t)  == SumSeq([j \in 1..Len(t) |-> Abs(x[j] - t[j])], Len(t))
 Sq(x, t)  == SumSeq([j \in 1..Len(t) |-> (x[j] - t[j]) * (x[j] - t[j])], Len(t))
@@ -135,6 +137,10 @@ MaxAbs(cf) == IF cf.ubits = 0 THEN V ELSE 1
 
 Gen(seed, r, f) == [a \in 1..r |-> [b \in 1..f |-> ((seed * 37 + a * 11 + b * 5 + a * b * 3 + ((a * a) % 7)) % (2 * V + 1)) - V]]
 GenY(seed, f)   == [b \in 1..f |-> ((seed * 13 + b * 7) % (2 * V + 1)) - V]
+(* non-negative variant (every element type can hold it), used for WIDE rows: a row that differs from y in more   *)
+(* coordinates than an 8- or 16-bit counter can hold                                                              *)
+GenP(seed, r, f) == [a \in 1..r |-> [b \in 1..f |-> (seed * 37 + a * 11 + b * 5 + a * b * 3) % (V + 1)]]
+GenPY(seed, f)   == [b \in 1..f |-> (seed * 13 + b * 7 + 1) % (V + 1)]
 
 Listed(cf) == cf.dtype \in Supported[cf.kernel] /\ cf.ydt = "same"
 Bad(cf) == cf.xrank # 2 \/ cf.yrank # 1 \/ cf.dw # "same" \/ cf.out \in BadOuts
@@ -148,6 +154,8 @@ Init ==
               /\ X \in [1..r -> [1..f -> (-V)..V]]
      \/ /\ DataMode = "gen"
         /\ \E f \in GenCols, r \in GenRows, seed \in 1..NSeeds : X = Gen(seed, r, f) /\ y = GenY(seed, f)
+     \/ /\ DataMode = "genpos"
+        /\ \E f \in GenCols, r \in GenRows, seed \in 1..NSeeds : X = GenP(seed, r, f) /\ y = GenPY(seed, f)
      \/ /\ DataMode = "zero"
         /\ \E f \in (MinF..MaxF) \cup GenCols, r \in (MinR..MaxR) \cup GenRows :
               X = [a \in 1..r |-> [b \in 1..f |-> 0]] /\ y = [b \in 1..f |-> 0]
